@@ -545,6 +545,25 @@ func (h *history) step(maxConns int) {
 			x := h.f.chars[xi]
 			entries = append(entries, refctl.CharValue{AID: x.AID, IID: x.IID, Ev: bptr(on)})
 			names = append(names, x.Key+note(c.subs[xi], on))
+			// now and then the entry is followed by one for an accessory that does not exist, with the instance id of
+			// ANOTHER notifying characteristic of the accessory just named: it is answered with a status of its own and
+			// subscribes nothing
+			if h.rnd.Intn(3) == 0 {
+				for yi, y := range h.f.chars {
+					if y.AID == x.AID && y.Ev && yi != xi && !c.subs[yi] && h.rnd.Intn(2) == 0 {
+						inXs := false
+						for _, z := range xs {
+							inXs = inXs || z == yi
+						}
+						if !inXs {
+							entries = append(entries, refctl.CharValue{AID: 7000 + uint64(h.rnd.Intn(100)), IID: y.IID, Ev: bptr(true)})
+							names = append(names, fmt.Sprintf("(unknown accessory).%d ev:true [the iid of %s]", y.IID, y.Key))
+							h.r.Count("subscription_entries_for_an_unknown_accessory_with_a_known_iid", 1)
+							break
+						}
+					}
+				}
+			}
 		}
 		h.logf("%s: c%d PUT ev:%v for [%s]", kind, c.Slot, on, strings.Join(names, "; "))
 		st, code, ok := h.put(c, entries)
